@@ -107,7 +107,7 @@ func vSameSeqs(a, b []gts.Sequence) bool {
 		}
 		for j := range fa {
 			x, y := vAtomsC(fa[j].Loc), vAtomsC(fb[j].Loc)
-			if len(x) != len(y) || fa[j].Key != fb[j].Key {
+			if len(x) != len(y) || fa[j].Key != fb[j].Key || !vSameProps(fa[j].Props, fb[j].Props) {
 				return false
 			}
 			for k := range x {
@@ -116,6 +116,24 @@ func vSameSeqs(a, b []gts.Sequence) bool {
 		}
 	}
 	return ok
+}
+
+// vSameProps: same qualifier names and values in the same order (concrete strings in the harnesses that use it)
+func vSameProps(a, b gts.Props) bool {
+	if len(a) != len(b) {
+		return false
+	}
+	for i := range a {
+		if len(a[i]) != len(b[i]) {
+			return false
+		}
+		for j := range a[i] {
+			if a[i][j] != b[i][j] {
+				return false
+			}
+		}
+	}
+	return true
 }
 
 func vClearCache(dir string) {
@@ -245,6 +263,171 @@ func VH_C14_key_completeness() {
 		}
 		closeCaches(err == nil)
 		// the cache key of the run = the name of the entry it created (digest of input digest + payload digest)
+		var key []byte
+		for _, n := range vFSList(cacheDir) {
+			key = append(key, []byte(n[len(cacheDir):])...)
+		}
+		return key, out, err == nil
+	}
+	p1, o1, ok1 := run("r1")
+	p2, o2, ok2 := run("r2")
+	vCover("two-runs")
+	same := vSameB(p1, p2)
+	vAssert("payload-recorded", vAnd(len(p1) > 0, len(p2) > 0))
+	vAssert("equal-key-equal-status", vImplies(same, ok1 == ok2))
+	vAssert("equal-key-equal-output", vImplies(same, vSameSeqs(o1, o2)))
+	vObserve("n1", len(o1))
+}
+
+//verif:harness prop=C14 quick=7 thorough=7 merge=concrete timeout=1500
+//verif:bounds key completeness by self-composition, remaining commands: each of rotate (locator gene | gene@^ | gene@$) / split (same locators) / infix (-e; locator gene | gene@^; host file) / pick (list 1 | 2 | 1,2 | 2-; -f) / summary (-F, -Q) / define (key gene | CDS; location 1..2 | complement(1..2) | thorough: 2..3; -q none | a=b | a=b,c=d | c=d,a=b | thorough: a=c) / clear, reverse, complement, repair (no options: the command name itself is the only key component, checked pairwise between the four) is run twice on the same concrete records on a cold cache with two independently chosen option vectors; whenever the two runs use the same cache key (entry name) their outputs and statuses must be equal
+//verif:assume outputs are compared as emitted sequences (capturing writer; summary: bytes written to stdout); json.Marshal modelled by an injective structural encoding (the real encodePayload runs)
+func VH_C14_key_completeness_more() {
+	cmd := vShard(7)
+	var ff gts.FeatureSlice
+	ff = ff.Insert(gts.Feature{Key: "gene", Loc: gts.Range(1, 3), Props: gts.Props{[]string{"gene", "ga"}, []string{"note", "na"}}})
+	ff = ff.Insert(gts.Feature{Key: "gene", Loc: gts.Range(2, 5).Complement(), Props: gts.Props{[]string{"gene", "gb"}, []string{"note", "nb"}}})
+	gb, _ := vPlainRecord("kc", 0)
+	gb.Origin = seqio.NewOrigin([]byte("acgta"))
+	gb.Table = ff
+	if cmd == 0 {
+		gb.Fields.Topology = gts.Circular
+	}
+	gb2, _ := vPlainRecord("kd", 0)
+	gb2.Origin = seqio.NewOrigin([]byte("tt"))
+	cacheDir := "/cache/gts-cache"
+	hostPath := "/h/host.gb"
+	if !vIsModel() {
+		home := vTempDir()
+		os.Setenv("XDG_CACHE_HOME", home)
+		cacheDir = home + "/gts-cache"
+		if cmd == 2 {
+			hostPath = home + "/host.gb"
+			f, err := os.Create(hostPath)
+			if err != nil {
+				panic(err)
+			}
+			if _, err := seqio.NewWriter(f, seqio.GenBankFile).WriteSeq(gb); err != nil {
+				panic(err)
+			}
+			f.Close()
+		}
+	} else if cmd == 2 {
+		vFSWrite(hostPath, []byte("host"))
+	}
+	run := func(tag string) ([]byte, []gts.Sequence, bool) {
+		opt := vBool(tag + ".opt")
+		var args []string
+		var fn flags.Function
+		name := ""
+		in := []gts.Sequence{gb}
+		raw := false
+		switch cmd {
+		case 0, 1:
+			name, fn = "rotate", rotateFunc
+			if cmd == 1 {
+				name, fn = "split", splitFunc
+			}
+			switch vChoice(tag+".loc", 3) {
+			case 0:
+				args = append(args, "gene")
+			case 1:
+				args = append(args, "gene@^")
+			default:
+				args = append(args, "gene@$")
+			}
+		case 2:
+			name, fn = "infix", infixFunc
+			if opt {
+				args = append(args, "-e")
+			}
+			if vBool(tag + ".loc") {
+				args = append(args, "gene@^")
+			} else {
+				args = append(args, "gene")
+			}
+			args = append(args, hostPath)
+			in = []gts.Sequence{gb2}
+		case 3:
+			name, fn = "pick", pickFunc
+			if opt {
+				args = append(args, "-f")
+			}
+			switch vChoice(tag+".list", 4) {
+			case 0:
+				args = append(args, "1")
+			case 1:
+				args = append(args, "2")
+			case 2:
+				args = append(args, "1,2")
+			default:
+				args = append(args, "2-")
+			}
+			in = []gts.Sequence{gb, gb2}
+		case 4:
+			name, fn, raw = "summary", summaryFunc, true
+			if opt {
+				args = append(args, "-F")
+			}
+			if vBool(tag + ".q") {
+				args = append(args, "-Q")
+			}
+		case 5:
+			name, fn = "define", defineFunc
+			switch vChoice(tag+".props", 4+vTier()) {
+			case 0:
+			case 1:
+				args = append(args, "-q", "a=b")
+			case 2:
+				args = append(args, "-q", "a=b", "-q", "c=d")
+			case 3:
+				args = append(args, "-q", "c=d", "-q", "a=b")
+			default:
+				args = append(args, "-q", "a=c")
+			}
+			if opt {
+				args = append(args, "CDS")
+			} else {
+				args = append(args, "gene")
+			}
+			switch vChoice(tag+".at", 2+vTier()) {
+			case 0:
+				args = append(args, "1..2")
+			case 1:
+				args = append(args, "complement(1..2)")
+			default:
+				args = append(args, "2..3")
+			}
+		default:
+			switch vChoice(tag+".which", 4) {
+			case 0:
+				name, fn = "clear", clearFunc
+			case 1:
+				name, fn = "reverse", reverseFunc
+			case 2:
+				name, fn = "complement", complementFunc
+			default:
+				name, fn = "repair", repairFunc
+			}
+		}
+		vClearCache(cacheDir)
+		if vIsModel() {
+			vResetStdio([]byte("in"))
+		}
+		var out []gts.Sequence
+		var err error
+		if raw {
+			var text []byte
+			text, err = vRunRaw(name, fn, args, in)
+			out = []gts.Sequence{gts.New(nil, nil, text)}
+		} else {
+			if cmd == 2 {
+				vSecondary = [][]gts.Sequence{{gb}}
+			}
+			out, err = vRunCmd(name, fn, args, in)
+			vSecondary = nil
+		}
+		closeCaches(err == nil)
 		var key []byte
 		for _, n := range vFSList(cacheDir) {
 			key = append(key, []byte(n[len(cacheDir):])...)
